@@ -249,12 +249,12 @@ SPEC = {
                  'as_matrix.sparse==dense', 'as_matrix.dense-format', 'as_vector.dense', 'from_vector.tol0-reproduces', 'merge_mps.dense',
                  'merge-undoes-split[tol0]', 'merge_mpo.dense'],
     'workloads': [
-        Workload('mps-sum', mps_sum, quick=600, thorough=20000),
-        Workload('mpo-arith', mpo_arith, quick=500, thorough=16000),
-        Workload('apply', apply_case, quick=300, thorough=10000),
-        Workload('identity', identity_case, quick=120, thorough=2000),
-        Workload('from-vector', from_vector_case, quick=250, thorough=8000),
-        Workload('merge-split', merge_split_case, quick=300, thorough=8000),
+        Workload('mps-sum', mps_sum, quick=1200, thorough=160000),
+        Workload('mpo-arith', mpo_arith, quick=1000, thorough=128000),
+        Workload('apply', apply_case, quick=600, thorough=60000),
+        Workload('identity', identity_case, quick=120, thorough=8000),
+        Workload('from-vector', from_vector_case, quick=250, thorough=48000),
+        Workload('merge-split', merge_split_case, quick=600, thorough=64000),
     ],
     'shards': {'quick': 1, 'thorough': 16},
     'assumptions': ['dense contraction in pvm/refs.py'],
